@@ -600,9 +600,9 @@ func runStages(c *core.Ctx) []core.Obligation {
 // da.Z > da.Y > da.X > db.Z > db.Y > db.X > dc.Z > dc.Y > dc.X > 0, each infinitely smaller than any product of the
 // earlier ones. bc = b x c is passed in. Terms whose coefficient is forced to zero by earlier zero tests are skipped.
 var sosReference = []string{
-	"bc.Z", // da.Z
-	"bc.Y", // da.Y
-	"bc.X", // da.X
+	"bc.Z",            // da.Z
+	"bc.Y",            // da.Y
+	"bc.X",            // da.X
 	"c.X*a.Y-c.Y*a.X", // db.Z
 	"c.X",             // db.Z*da.Y
 	"-c.Y",            // db.Z*da.X
